@@ -26,6 +26,7 @@ import (
 	"strings"
 	"sync"
 	"sync/atomic"
+	"syscall"
 	"testing/fstest"
 	"time"
 
@@ -249,6 +250,70 @@ func (c *changingFS) Open(name string) (fs.File, error) {
 		}
 	}
 	return c.MapFS.Open(name)
+}
+
+// unreadableFS: a module in which some files can be listed but not opened (permission denied), like a mode-000 file
+// served by a daemon that does not run as root
+type unreadableFS struct {
+	fstest.MapFS
+	deny map[string]bool
+}
+
+func (u *unreadableFS) Open(name string) (fs.File, error) {
+	if u.deny[name] {
+		return nil, &fs.PathError{Op: "open", Path: name, Err: fs.ErrPermission}
+	}
+	return u.MapFS.Open(name)
+}
+
+// faultyFS: a module whose files fail one Read with an I/O error (the k-th Read of every open of the file), as a
+// flaky disk or network file system does
+type faultyFS struct {
+	fstest.MapFS
+	failAt   map[string]int
+	failOpen map[string]int // the n-th Open of the file fails
+	mu       sync.Mutex
+	opens    map[string]int
+}
+
+type faultyFile struct {
+	fs.File
+	n, failAt int
+}
+
+func (f *faultyFile) Read(p []byte) (int, error) {
+	f.n++
+	if f.n == f.failAt {
+		return 0, &fs.PathError{Op: "read", Path: "faulty", Err: syscall.EIO}
+	}
+	return f.File.Read(p)
+}
+
+func (f *faultyFile) Seek(off int64, whence int) (int64, error) {
+	if sk, ok := f.File.(io.Seeker); ok {
+		return sk.Seek(off, whence)
+	}
+	return 0, fmt.Errorf("not seekable")
+}
+
+func (u *faultyFS) Open(name string) (fs.File, error) {
+	if k, ok := u.failOpen[name]; ok {
+		u.mu.Lock()
+		if u.opens == nil {
+			u.opens = map[string]int{}
+		}
+		u.opens[name]++
+		n := u.opens[name]
+		u.mu.Unlock()
+		if n == k {
+			return nil, &fs.PathError{Op: "open", Path: name, Err: syscall.EMFILE}
+		}
+	}
+	f, err := u.MapFS.Open(name)
+	if k, ok := u.failAt[name]; ok && err == nil {
+		return &faultyFile{File: f, failAt: k}, nil
+	}
+	return f, err
 }
 
 // runModuleOverTransport: a pull from an in-process server that serves the given module (fs.FS backed).
@@ -532,6 +597,108 @@ func suiteTrace(h *H) {
 			out = "timeout after 1m0s (local copy: client and in-process server both blocked)"
 		}
 		judge("local-copy", out)
+		os.RemoveAll(dir)
+	}
+	// ---- a source file that can be listed but not opened when it is its turn: whatever the session reports, it must
+	// not report success with that file missing or stale at the destination (C01)
+	{
+		dir := filepath.Join(base, "unreadable")
+		T := time.Unix(1400000000, 0)
+		for n, pr := range [][2]int{{0, 0}, {64 * 1024, 64 * 1024}, {-1, -1}} {
+			memfs := fstest.MapFS{}
+			for _, name := range []string{"a-ok", "b-unreadable", "c-ok"} {
+				memfs[name] = &fstest.MapFile{Data: bytes.Repeat([]byte(name), 300), Mode: 0o644, ModTime: T}
+			}
+			mod := &rsyncd.Module{Name: "memfs", FS: &unreadableFS{MapFS: memfs, deny: map[string]bool{"b-unreadable": true}}}
+			dst := filepath.Join(dir, fmt.Sprintf("dst%d", n))
+			os.MkdirAll(dst, 0o755)
+			os.WriteFile(filepath.Join(dst, "b-unreadable"), []byte("stale content"), 0o644)
+			out := runModuleOverTransport(mod, []string{"-a"}, dst, pr[0], pr[1], int64(h.seed)+int64(n), 30*time.Second)
+			v := ""
+			switch {
+			case strings.HasPrefix(out, "timeout"):
+				v = "FAIL[C18] a session with a source file that cannot be opened never ends: " + out
+			case strings.HasPrefix(out, "panic"):
+				v = "FAIL[C08] " + out
+			case out == "ok":
+				if b, err := os.ReadFile(filepath.Join(dst, "b-unreadable")); err != nil || !bytes.Equal(b, memfs["b-unreadable"].Data) {
+					v = "FAIL[C01] the session reported success although a listed source file could not be opened by the sender: the destination keeps its stale copy (the sender skips the file without telling the receiver)"
+				}
+			}
+			h.emit(fmt.Sprintf("!trace-unreadable seed=%d c2s=%d s2c=%d", h.seed, pr[0], pr[1]), strings.SplitN(out, ":", 2)[0], v, true)
+			h.stat("trace.unreadable")
+		}
+		os.RemoveAll(dir)
+	}
+	// ---- a source file one of whose reads fails with an I/O error, on the whole-file path (no previous copy) and on the
+	// delta path (a stale copy exists): a session that reports success has delivered the source's bytes
+	{
+		dir := filepath.Join(base, "readfault")
+		T := time.Unix(1400000000, 0)
+		n := 0
+		content := h.bytes(1<<20 + 77)
+		for _, failAt := range []int{1, 2, 3, 4, 5} {
+			for _, stale := range []bool{false, true} {
+				n++
+				memfs := fstest.MapFS{"big": &fstest.MapFile{Data: content, Mode: 0o644, ModTime: T}, "small": &fstest.MapFile{Data: []byte("small"), Mode: 0o644, ModTime: T}}
+				mod := &rsyncd.Module{Name: "memfs", FS: &faultyFS{MapFS: memfs, failAt: map[string]int{"big": failAt}}}
+				dst := filepath.Join(dir, fmt.Sprintf("dst%d", n))
+				os.MkdirAll(dst, 0o755)
+				if stale {
+					old := append([]byte{}, content[:600*1024]...)
+					old[1000] ^= 0x55
+					os.WriteFile(filepath.Join(dst, "big"), old, 0o644)
+				}
+				out := runModuleOverTransport(mod, []string{"-a"}, dst, 64*1024, 64*1024, int64(h.seed)+int64(n), 30*time.Second)
+				v := ""
+				switch {
+				case strings.HasPrefix(out, "timeout"):
+					v = "FAIL[C18] a session with a failing read of a source file never ends: " + out
+				case strings.HasPrefix(out, "panic"):
+					v = "FAIL[C08] " + out
+				case out == "ok":
+					if b, err := os.ReadFile(filepath.Join(dst, "big")); err != nil || !bytes.Equal(b, content) {
+						v = fmt.Sprintf("FAIL[C01] read %d of the source file failed with an I/O error, the session reported success, and the destination does not hold the source's bytes", failAt)
+					}
+				}
+				h.emit(fmt.Sprintf("!trace-readfault seed=%d failing-read=%d stale-copy=%v", h.seed, failAt, stale), strings.SplitN(out, ":", 2)[0], v, true)
+				h.stat("trace.readfault")
+			}
+		}
+		os.RemoveAll(dir)
+	}
+	// ---- many sessions in which a source file cannot be opened a second time (the sender reads a file through two
+	// opens), then a healthy one: whatever the earlier sessions left behind in the process, the healthy one completes
+	{
+		dir := filepath.Join(base, "reopen")
+		T := time.Unix(1400000000, 0)
+		bad := 0
+		for i := 0; i < 40; i++ {
+			memfs := fstest.MapFS{"f": &fstest.MapFile{Data: bytes.Repeat([]byte{byte(i)}, 5000), Mode: 0o644, ModTime: T}}
+			mod := &rsyncd.Module{Name: "memfs", FS: &faultyFS{MapFS: memfs, failOpen: map[string]int{"f": 2}}}
+			dst := filepath.Join(dir, fmt.Sprintf("d%d", i))
+			os.MkdirAll(dst, 0o755)
+			out := runModuleOverTransport(mod, []string{"-a"}, dst, 64*1024, 64*1024, int64(h.seed)+int64(i), 20*time.Second)
+			os.RemoveAll(dst)
+			if strings.HasPrefix(out, "timeout") {
+				bad++
+				if bad >= 2 {
+					break // they all would: no need to wait for forty deadlines
+				}
+			}
+		}
+		memfs := fstest.MapFS{"f": &fstest.MapFile{Data: bytes.Repeat([]byte("ok"), 4000), Mode: 0o644, ModTime: T}}
+		dst := filepath.Join(dir, "healthy")
+		os.MkdirAll(dst, 0o755)
+		out := runModuleOverTransport(&rsyncd.Module{Name: "memfs", FS: memfs}, []string{"-a"}, dst, 64*1024, 64*1024, int64(h.seed), 30*time.Second)
+		v := ""
+		if bad > 0 {
+			v = "FAIL[C18] a session whose source file could not be opened a second time (after its data had been sent) never ends"
+		} else if out != "ok" {
+			v = "FAIL[C18] after 40 sessions with a source file that could not be opened a second time, a healthy session does not complete: " + out
+		}
+		h.emit(fmt.Sprintf("!trace-reopen seed=%d", h.seed), strings.SplitN(out, ":", 2)[0], v, true)
+		h.stat("trace.reopen")
 		os.RemoveAll(dir)
 	}
 	// ---- files that change while they are sent: what the receiver reconstructs does not verify. However many
